@@ -807,11 +807,14 @@ class DateParserPlugin(plugins.Plugin):
             ts = timespan(start, end).disambiguated(self.basedate)
             start, end = ts.start, ts.end
         elif start:
-            start = start.disambiguated(self.basedate)
+            # A fully specified date comes back as a plain datetime
+            if hasattr(start, "disambiguated"):
+                start = start.disambiguated(self.basedate)
             if isinstance(start, timespan):
                 start = start.start
         elif end:
-            end = end.disambiguated(self.basedate)
+            if hasattr(end, "disambiguated"):
+                end = end.disambiguated(self.basedate)
             if isinstance(end, timespan):
                 end = end.end
         drn = DateRangeNode(node.fieldname, start, end, boost=node.boost)
